@@ -206,8 +206,9 @@ def _same_time(a, b):
 
 def check_run(cfg, conds, free, bad, tag):
     """Run cfg with the condition set and evaluate every oracle.  Returns (states, label)."""
-    qs = '+'.join(c['q'] for c in conds)
-    modes = '+'.join(c['mode'] for c in conds)
+    # signature of a wrong stop row: quantity and mode for a single condition, the mode assignment for a set (members in the message)
+    stop_sig = ('C19/wrong-stop-step/q=%s/mode=%s' % (conds[0]['q'], conds[0]['mode']) if len(conds) == 1
+                else 'C19/wrong-stop-step/modes=%s' % '+'.join(c['mode'] for c in conds))
     r = execute(cfg, conds)
     d = r['model'].pData
     names, elements = r['names'], r['elements']
@@ -224,13 +225,13 @@ def check_run(cfg, conds, free, bad, tag):
         label = 'ran-to-end'
         if float(d.time[-1]) != float(tf):
             kf = expected(free.pData, names, elements, conds)[3]
-            bad('C19/wrong-stop-step/%s/%s' % (qs, modes),
+            bad(stop_sig,
                 '%s: no row of the recorded history satisfies the combined condition, yet the run ended at t=%r after %d steps instead of '
                 'the end time %r (free run: first satisfied at row %r)' % (tag, float(d.time[-1]), int(d.n), tf, kf))
     else:
         label = 'stopped'
         if int(d.n) != K:
-            bad('C19/wrong-stop-step/%s/%s' % (qs, modes),
+            bad(stop_sig,
                 '%s: the combined condition first holds at row %d (t=%r; per condition first rows %r) but the run has %d steps (ended at t=%r)'
                 % (tag, K, float(d.time[K]), ks, int(d.n), float(d.time[-1])))
     # --- prefix of the free run
@@ -301,6 +302,17 @@ def free_run(cfg):
     return r
 
 
+def check_free(fr, cfg, bad):
+    """A run without any stopping condition runs to the requested end time (the 'otherwise' clause of the statement)."""
+    d = fr['model'].pData
+    tf = fr['cfg']['tf']
+    if float(d.time[-1]) != float(tf):
+        bad('C19/wrong-stop-step/no-conditions', '%s: a run without stopping conditions ended at t=%r after %d steps instead of the end time %r'
+            % (_describe(cfg), float(d.time[-1]), int(d.n), tf))
+        return False
+    return True
+
+
 def selections(r, q, level):
     kind = QUANT[q][2]
     pool = r['names'] if kind == 'phase' else r['elements']
@@ -322,6 +334,8 @@ def run_single(case):
     cfg, q = case['cfg'], case['q']
     fr = free_run(cfg)
     d = fr['model'].pData
+    if not check_free(fr, cfg, bad):
+        return {'viol': bad.v, 'states': int(d.n), 'transitions': int(d.n), 'outcome': '%s/free-run-stopped' % q, 'nontrivial': False}
     states = runs = 0
     labels, infeasible = set(), 0
     for ineq in case.get('ineqs', ['>', '<']):
@@ -358,6 +372,8 @@ def run_set(case):
     cfg = case['cfg']
     fr = free_run(cfg)
     d = fr['model'].pData
+    if not check_free(fr, cfg, bad):
+        return {'viol': bad.v, 'states': int(d.n), 'transitions': int(d.n), 'outcome': 'free-run-stopped', 'nontrivial': False}
     members = []
     for i in case['members']:
         q, ineq, cls, selk = POOL[i]
@@ -416,6 +432,10 @@ def run_ttp(case):
     fm.setTemperature(float(Ts[1]))
     fm.solve(maxTime)
     fd = fm.pData
+    if float(fd.time[-1]) != float(maxTime):
+        bad('C19/wrong-stop-step/no-conditions', '%s: a run without stopping conditions ended at t=%r after %d steps instead of the end time %r'
+            % (tag, float(fd.time[-1]), int(fd.n), maxTime))
+        return {'viol': bad.v, 'states': int(fd.n), 'outcome': 'free-run-stopped', 'nontrivial': False}
     names, elements = [str(p) for p in fm.phases], list(fm.elements)
     cds = []
     for q, ineq, cls in [('vf', '>', 'early'), ('vf', '>', 'late'), ('radius', '>', 'late'), ('dens', '>', 'never')]:
@@ -472,7 +492,7 @@ def run_ttp(case):
             elif crossing[j] and not _same_time(float(ind[j]), ts[j]):
                 bad('C19/time-not-interpolated/%s' % c['q'], '%s: %s at %.6g K: reported %r, interpolation %r' % (tag, _cstr(c), T, ind[j], ts[j]))
         if (K is None and float(d.time[-1]) != float(maxTime)) or (K is not None and int(d.n) != K):
-            bad('C19/wrong-stop-step/%s/%s' % ('+'.join(c['q'] for c in cds), '+'.join('and' for _ in cds)),
+            bad('C19/wrong-stop-step/modes=%s' % '+'.join('and' for _ in cds),
                 '%s: fresh run at %.6g K has %d steps (t=%r), scan says stop row %r' % (tag, T, int(d.n), float(d.time[-1]), K))
     if len(tap.seen) != 3:
         bad('C19/ttp/runs', '%s: the calculator went through %d histories for 3 temperatures' % (tag, len(tap.seen)))
